@@ -36,6 +36,16 @@ def uniontype(*args: V) -> R:
     return R("uniontype", __args__=K(tuple(args)), __module__=K("types"))
 
 
+def pep585(origin: V, *args: V) -> R:
+    """`list[X]`, `dict[K, V]`, `collections.abc.Sequence[X]` written in the source (PEP 585): an instance of types.GenericAlias -
+    since 3.11 not an instance of `type`, not a typing generic; unknown attributes are answered by the origin class"""
+    return R("pep585", origin=origin, __args__=K(tuple(args)))
+
+
+# platform fact, read from the analysing interpreter
+_PEP585_IS_TYPE = isinstance(list[int], type)
+
+
 class AnnoScenario:
     def __init__(self, repo: Repo, module: str, func: str, replace_policy: Optional[Dict[str, str]] = None) -> None:
         self.repo = repo
@@ -91,6 +101,16 @@ class AnnoScenario:
             if attr == "__origin__":
                 return origin_token(obj.fields["name"].v)
             if attr in ("__args__", "__qualname__", "__name__", "__supertype__", "__forward_arg__"):
+                st.pending = st.pending or "AttributeError"
+                return U("no " + attr)
+        if isinstance(obj, R) and obj.kind == "pep585":
+            if attr == "__origin__":
+                return obj.fields["origin"]
+            if attr == "__args__":
+                return obj.fields["__args__"]
+            if attr in ("__module__", "__qualname__", "__name__"):
+                return obj.fields["origin"].fields[attr]
+            if attr in ("__supertype__", "__forward_arg__", "__annotations__", "__total__"):
                 st.pending = st.pending or "AttributeError"
                 return U("no " + attr)
         if isinstance(obj, R) and obj.kind == "uniontype" and attr in ("__origin__", "__qualname__", "__name__", "__supertype__", "__forward_arg__", "__annotations__", "__total__"):
@@ -286,7 +306,7 @@ class AnnoScenario:
             nm = n.name if isinstance(n, S) else (n.fields["__qualname__"].v if isinstance(n, R) and n.kind == "cls" else repr(n))
             kind = a.kind if isinstance(a, R) else None
             if nm in ("builtin:type",):
-                out |= kind in ("cls", "td")
+                out |= kind in ("cls", "td") or (kind == "pep585" and _PEP585_IS_TYPE)
             elif nm in ("builtin:str",):
                 out |= isinstance(a, K) and isinstance(a.v, str)
             elif nm == "NoneType":
@@ -297,6 +317,8 @@ class AnnoScenario:
                 out |= kind == "forwardref"
             elif nm.endswith("types.UnionType") or nm == "UnionType":
                 out |= kind == "uniontype"
+            elif nm.endswith("types.GenericAlias") or nm == "GenericAlias":
+                out |= kind == "pep585"
             else:
                 return None
         return K(out)
@@ -357,6 +379,8 @@ def eval_annotation(text: str, namespace: Dict[str, Any], nested: Callable[[Any,
             base = ev(n.value)
             key = ev(n.slice)
             args = key if isinstance(key, tuple) else (key,)
+            if isinstance(base, R) and base.kind == "cls":
+                return pep585(base, *args)  # `list[X]`, `Sequence[X]` with the class imported from collections.abc
             if not (isinstance(base, R) and base.kind == "alias"):
                 raise Unresolved(f"`{ast.unparse(n.value)}` is not subscriptable")
             name = base.fields["name"].v
@@ -408,6 +432,9 @@ def equal_types(a: Any, b: Any) -> bool:
             return flat[0] if len(flat) == 1 else gen("Union", *flat)
         return t
     a, b = _norm(a), _norm(b)
+    if isinstance(a, R) and isinstance(b, R) and a.kind == "pep585" and b.kind == "pep585":
+        xa, xb = a.fields["__args__"].v, b.fields["__args__"].v
+        return equal_types(a.fields["origin"], b.fields["origin"]) and len(xa) == len(xb) and all(equal_types(x, y) for x, y in zip(xa, xb))
     if isinstance(a, K) and isinstance(b, K) and isinstance(a.v, tuple) and isinstance(b.v, tuple):
         return len(a.v) == len(b.v) and all(equal_types(x, y) for x, y in zip(a.v, b.v))
     # a NAMED TypedDict class of the program (class Movie(TypedDict): ...) is a class like any other: module and qualified name
